@@ -90,8 +90,11 @@ RULE = (
 )
 ASSUMPTIONS = [
     "names are non-empty (SQLAlchemy raises IndexError on the empty name); schema components are non-empty",
-    "a dotted schema string denotes database.owner qualification (Alembic splits it, SQLAlchemy's format_table does not): the "
-    "specification accepts any split whose parts joined by '.' spell the schema",
+    "argument kinds (Spec.Ident.schemaPartsOf): a plain str schema containing dots is a multi-part qualifier by design (one identifier "
+    "per part); any quoted_name (quote=None as stored in Table.schema, True, False) is ONE identifier, dots included; quote=False is "
+    "the caller's assertion that no quoting is needed and is only generated for such names; table / column / constraint names are "
+    "always one identifier",
+    "statements compiled by SQLAlchemy's own constructs are judged with the weaker join reading (refOkJoin)",
 ]
 
 
@@ -290,7 +293,8 @@ def gen_cases(ctx, rng, classes, schema_kinds, reps, dialects=None, templates=No
             for sk in schema_kinds:
                 for combo in itertools.product(classes, repeat=len(slots)):
                     for _ in range(reps):
-                        names = {s: G.gen_name(rng, cls, p.final_quote, p.initial_quote, p.reserved_words) for s, cls in zip(slots, combo)}
+                        names = {s: G.arg_kind(rng, G.gen_name(rng, cls, p.final_quote, p.initial_quote, p.reserved_words), cls)
+                                 for s, cls in zip(slots, combo)}
                         schema = G.gen_schema(rng, sk, p.final_quote, p.initial_quote, p.reserved_words, classes)
                         desc = build(names, schema, rng)
                         yield d, desc, {"template": key, "classes": list(combo), "schema_kind": sk}
@@ -316,7 +320,10 @@ def gen_impl_paths(ctx, rng, schema_kinds, reps):
                 if not (ty or nu or df or nm or cm or ai):
                     continue
                 for _ in range(reps):
-                    nm_ = lambda: G.gen_name(rng, rng.choice(G.CLASSES), p.final_quote, p.initial_quote, p.reserved_words)  # noqa
+                    def nm_():
+                        cls = rng.choice(G.CLASSES)
+                        return G.arg_kind(rng, G.gen_name(rng, cls, p.final_quote, p.initial_quote, p.reserved_words), cls)
+
                     names = {"t": nm_(), "col": nm_(), "new": nm_()}
                     schema = G.gen_schema(rng, sk, p.final_quote, p.initial_quote, p.reserved_words, G.CLASSES)
                     kw = dict(rng.choice(existing))
@@ -568,6 +575,10 @@ def classify(failure):
     allnames = I.all_names(cj)
     if any("\t" in n for n in allnames) and "\t" not in emitted:
         return "C14-TAB"
+    sch = (inp.get("desc") or {}).get("schema")
+    if (d in ("mysql", "mariadb") and k == "mysqlDropConstraint" and isinstance(sch, str) and "." in sch
+            and emitted.startswith("ALTER TABLE `%s`." % sch.replace("`", "``").replace("%", "%%"))):
+        return "C14-MYSQL-DROP-DOTTED"
     if d in ("postgresql", "mysql", "mariadb") and any("%" in n for n in allnames) and "%%" in emitted:
         return "C14-PERCENT"
     return None
